@@ -7,7 +7,8 @@
 (***************************************************************************)
 EXTENDS CF, Families, Json, TLC
 
-CONSTANTS Family, RndN, RndK, MaxAtoms, MaxIv, Reflexive, NNodes
+CONSTANTS Family, RndN, RndK, MaxAtoms, MaxIv, Reflexive, NNodes,
+          Chains   \* also print the graph-dependent merge-chain events (CF.tla MergeChainEvents)
 VARIABLES g, phase
 vars == <<g, phase>>
 
@@ -15,6 +16,9 @@ vars == <<g, phase>>
 Init == g \in GraphFamily(Family, RndN, RndK) \cup {MkG(1..NNodes, {}, {})} /\ phase = "chosen"
 Run == /\ phase = "chosen" /\ phase' = "done" /\ g' = g
        /\ PrintT(<<"CFG", ToJson([n |-> g.n, d |-> g.d, b |-> g.b])>>)
+       /\ (Chains /\ Cardinality(g.n) = NNodes) =>
+             PrintT(<<"CFM", ToJson([n |-> g.n, d |-> g.d, b |-> g.b,
+                                     evs |-> {SetToSeqBy(S) : S \in MergeChainEvents(g)}])>>)
        /\ (g = MkG(1..NNodes, {}, {})) =>
              PrintT(<<"CFE", ToJson({SetToSeqBy(S) : S \in EventsOn(1..NNodes, MaxAtoms, MaxIv, Reflexive)})>>)
 Spec == Init /\ [][Run]_vars
